@@ -116,4 +116,31 @@ theorem fg_cases_src : fg_cases = fgCasesExp := rfl
 /-- `tlsConfig.validate`: missing and needed / present and not needed (`Config.valTls`). -/
 theorem tls_cases_src : tls_cases = "c == nil | !needsTLS" := by decide
 
+/-! ### Round 5 — optional sections: the nil guards the shape model relies on -/
+
+/-- `serverGroups.collectSessTicketPaths` skips a group without a `tls` section (the round-5 `fix:`;
+`Shape.collectFrom false`).  Without the guard this fact is the empty string. -/
+theorem tickets_guard_src : tickets_guard = "g.TLS == nil" := by decide
+
+/-- `builder.initTLSManager` is the caller (`Shape.startup`: first step). -/
+theorem tlsmgr_calls_src : tlsmgr_calls = "1" := by decide
+
+/-- `tlsConfig.toInternal` accepts a nil section (`initServerGroups` on a plain group). -/
+theorem tls_conv_guard_src : tls_conv_guard = "c == nil | err != nil" := by decide
+
+/-- `interfaceListenersConfig.toInternal`, `webConfig.toInternal` and `websvc.New` accept the absent
+optional section (`dnsCryptConfig.toInternal` has such a guard too, but it is only called for servers
+whose section validation requires: no fact). -/
+theorem iface_conv_guard_src : iface_conv_guard = "c == nil | err != nil" := by decide
+theorem web_conv_guard_src : web_conv_guard = "c == nil" := by decide
+theorem websvc_new_guard_src : websvc_new_guard = "c == nil" := by decide
+
+/-- `linkedIPServer.toInternal`: nil section, then the bind data, then `LINKED_IP_TARGET_URL`
+(`Shape.startup`: `xerr web`). -/
+theorem linked_conv_guard_src : linked_conv_guard = "s == nil | err != nil | targetURL == nil" := by decide
+theorem blockpage_conv_guard_src : blockpage_conv_guard = "s == nil | err != nil" := by decide
+
+/-- `servers.validate`: empty list, nil item, the server itself, duplicate name (`Shape.valGroup`). -/
+theorem srvs_cases_src : srvs_cases = "len(srvs) == 0 | s == nil | err != nil | names.Has(s.Name)" := by decide
+
 end Agd.Tie.C20
